@@ -177,6 +177,16 @@ check("C11", level="model_checking", engine="nx",
       note=NX_NOTE + " Reference reader for the invalid side: lib/templates_c11.py ref_parse/valid_for (simple lexical forms only).",
       design_ref="5/C11")
 
+check("C20", level="model_checking", engine="nx",
+      technique="exhaustive schedule DFS (all completion subsets) on the real StatusPrinter/LinePrinter/Builder with a transcript parser as oracle",
+      text="For output templates (every kind of command output, failures, restat pruning, dyndep additions, console-pool "
+           "mixes, manifest regeneration) and every schedule, -j/-k, default, NINJA_STATUS, --status and -v formats, the "
+           "captured transcript is parsed: each command's visible output exactly once, contiguous, directly after its status "
+           "line (failed: FAILED [code] outputs + command line first), nothing between a console command's status line and "
+           "its own output, counters within bounds and finished = total after success.",
+      note=NX_NOTE + " Dumb terminal only; command output is delivered whole at completion; the smart-terminal path and "
+           "output arriving in pieces through real pipes are not covered by this engine.", design_ref="5/C20")
+
 ALL = ["C%02d" % i for i in range(1, 21)]
 
 
